@@ -104,17 +104,22 @@ def has_predicate(term):
                for _, n in g.walk(term))
 
 
-def classify(pair, failing=()):
-    """Known-finding input class of a failing pair (None: unknown -> VIOLATION)."""
+def classify(pair, failing=(), note=''):
+    """Known-finding input class of a failing pair (None: unknown -> VIOLATION).  The pickling classes only cover the
+    failure they describe: an exception of the named type raised by pickle, never a round trip that silently returns
+    something else."""
     a, b = pair['a'], pair['b']
     if pair['sort'] == 'kind' and failing and set(failing) <= {'pickle'} and a['k'] in ('array', 'map', 'struct'):
         return FINDING_KIND
     if pair['sort'] not in ('source', 'feature', 'mixed'):
         return None
     if failing and set(failing) <= {'pickle', 'pickle_after_use'}:
-        if has_unnamed_output(a) and 'pickle_after_use' in failing:
+        raised = {'pickle': 'pickle:', 'pickle_after_use': 'pickle_used:'}
+        if has_unnamed_output(a) and all(raised[f] + 'RecursionError' in note or raised[f] + 'TypeError' in note for f in failing):
             return FINDING_UNNAMED
-        return FINDING_PICKLE if has_predicate(a) else None
+        if has_predicate(a) and all(raised[f] + 'TypeError' in note for f in failing):
+            return FINDING_PICKLE
+        return None
     if colliding_literals_only(a, b):
         return FINDING_HASH
     if alias_dropped(a, b):
@@ -284,7 +289,8 @@ def measure_pair(p):
         return None, f'{type(exc).__name__}'  # the changed term is not constructible: no pair
     try:
         o['eq'] = bool(a == b)
-        o['eqr'] = bool(b == a)
+        # feature == source is the DSL comparison operator applied to a non-literal (an error by design): not evaluated
+        o['eqr'] = bool(b == a) if sort != 'mixed' else o['eq']
     except Exception as exc:  # pylint: disable=broad-except
         o['x_eq'] = True
         o['note'] += f'eq:{type(exc).__name__} '
@@ -414,7 +420,8 @@ def trace_identity(chk, pairs, procs):
             chk.fail(f'{pairs[i]["label"]} pair behaves differently in another process context ({changed}): '
                      f'{o1["note"]!r} vs {o2["note"]!r} {_show(pairs[i])}',
                      {'kind': 'pair', 'pair': pairs[i], 'primary': o1, 'stressed': o2},
-                     classify(pairs[i], ('pickle',) if pickling else ()))
+                     classify(pairs[i], [c for c, keys in (('pickle', ('x_pk', 'pk_self', 'pk_b')), ('pickle_after_use', ('u_ok',)))
+                                         if set(keys) & set(changed)] if pickling else (), o1['note'] + o2['note']))
     n_real = len(obs)
     # binding self-test on synthetic observations (independent of how the implementation behaves): a consistent
     # identical pair and a consistent different pair are accepted, each corruption of them is rejected
@@ -454,7 +461,7 @@ def trace_identity(chk, pairs, procs):
                 f'(eq={o["eq"]}/{o["eqr"]} hash_eq={o["heq"]} dict_hit={o["dhit"]} set_size={o["ssize"]} '
                 f'pickle={o["pk_self"]}/{o["pk_b"]} attr_ok={o["a_ok"] or o["a_na"]} cache_ok={o["c_ret_ok"] or o["c_na"]} '
                 f'cache_hit={o["c_hit"]} item_ok={o["g_ok"] or o["g_na"]} {o["note"]}) {_show(p)} [{ctx}]')
-        chk.fail(what, {'kind': 'pair', 'pair': p, 'observed': o, 'failing': failing}, classify(p, failing))
+        chk.fail(what, {'kind': 'pair', 'pair': p, 'observed': o, 'failing': failing}, classify(p, failing, o['note']))
     chk.extra['pairs'] = {'measure_s': round(t1 - t0, 1), 'tlc_s': round(t2 - t1, 1), 'pairs': len(pairs),
                           'observations_judged': n_real, 'by_sort_and_label': dict(sorted(by_label.items())),
                           'mutants_not_constructible': dict(skipped), 'hash_collisions_without_equality': collisions,
